@@ -7,7 +7,7 @@
    or retained, that delivered messages are in no pool until Message.Close, that broadcast frames are released once
    after the last user - these are decided by the harness (checksums, pool scribbler, -race scenarios): testing. *)
 From Coq Require Import List Bool Arith.
-From Gws Require Import Skel.IR Skel.Checker Skel.Monitors Skel.GlobalGuard Skel.Link Skel.Obligations.
+From Gws Require Import Skel.IR Skel.Checker Skel.Monitors Skel.GlobalGuard Skel.Link Skel.Obligations Skel.OblLock.
 Import ListNotations.
 
 Theorem C14_window_single_owner : forall (prog : nat -> stmt) (mode : nat -> lmode),
